@@ -9,6 +9,7 @@ def main(tier):
     rep.analysed["tree_hash"] = P.tree_hash
     segments.twin_blocks(P, rep)
     segments.line_siblings(P, rep)
+    segments.kernel_interpolation(P, rep)
     segments.interpolation_shape(P, rep)
     segments.section_model_loops(P, rep)
     segments.table_provenance(P, rep)
